@@ -218,7 +218,34 @@ func c12(r *Run) {
 			}
 		}
 		r.ob("C12.R4:eof-matches-closed", "(*exception).Is reports true for an ErrEOF exception matched against ErrConnClosed (reads after peer close match both)", is, nil, found, "no==ErrEOF && target==ErrConnClosed => true", true)
-		// identity: e.no == target => true
+		// identity: e.no == target => true (errors.Is(err, ErrEOF) for an ErrEOF exception)
+		{
+			same := func(v ssa.Value) (bool, bool) {
+				b, ok := v.(*ssa.BinOp)
+				if !ok || b.Op != token.EQL {
+					return false, false
+				}
+				x := b.X
+				if mi, ok := x.(*ssa.MakeInterface); ok {
+					x = mi.X
+				}
+				if _, isNo := loadOfField(x, "exception", "no"); isNo {
+					if _, isParam := b.Y.(*ssa.Parameter); isParam {
+						return true, true
+					}
+				}
+				return false, false
+			}
+			st := edgesEstablishing(is, same)
+			ss := &Search{Fn: is}
+			okSame := len(st) > 0
+			for _, ret := range ss.Reachable(st, func(i ssa.Instruction) bool { _, ok := i.(*ssa.Return); return ok }) {
+				if k, ok := constInt(ret.(*ssa.Return).Results[0]); !ok || k != 1 {
+					okSame = false
+				}
+			}
+			r.ob("C12.R4:errno-matches-itself", "(*exception).Is reports true when the target is the exception's own errno (errors.Is(err, ErrEOF), errors.Is(err, ErrConnClosed), ...)", is, nil, okSame, "e.no == target => true", true)
+		}
 		r.ob("C12.R4:timeout-flag", "(*exception).Timeout covers the three timeout errnos", w.MustFn("(*exception).Timeout"), nil, timeoutCovers(w), "ErrDialTimeout, ErrReadTimeout, ErrWriteTimeout => true", true)
 	}
 
